@@ -80,7 +80,9 @@ def run(ctx):
                           {"kind": "c18", "scenario": {k: x for k, x in sc.items() if k != "fs0"}, "files": {"/".join(e["p"]): len(e.get("meta", {}).get("data", b"")) for e in sc["fs0"]},
                            "driver": drv, "workers": w, "plan": plan, "verdict": v, "exit": o["exit"]}, sig={"scenario": sc["id"], "driver": drv})
         elif "--fsync" in sc["extra"] and o["exit"] == 0 and v["written"] < nfiles:
-            raise ToolError("C18 monitor saw %d written objects for %d files in %s: the observer lost events" % (v["written"], nfiles, sc["id"]))
+            # fewer destination objects were written than there are source files although the run reports success: either the
+            # observer lost events or the program skipped files (a matter for C02/C04) - nothing C18 can conclude; kept in the evidence
+            ctx.other.append({"clause": "observer-or-C02", "id": sc["id"], "driver": drv, "written": v["written"], "files": nfiles})
         for c in v["viol"]:
             if c != "C18":
                 ctx.other.append({"clause": c, "id": sc["id"], "driver": drv})
